@@ -578,6 +578,10 @@ class C15(Prop):
       n = rng.weighted([(1, rng.randint(0, 5)), (6, rng.randint(6, 16)), (2, rng.randint(17, hi))])
       yield {'algo': algo, 'dims': dims, 'events': self.gen_events(rng, n), 'm': 3}
 
+  def search_cases(self, rng, tier, broken):
+    # every case already checks all its crash points: one more batch is a 40x bigger search
+    yield from self.generate(rng.fork(), tier)
+
   def model_request(self, case):
     cfg = case['algo']
     if has_real(cfg):
